@@ -13,8 +13,9 @@ import (
 )
 
 type chStage struct {
-	K    int `json:"k"`
-	Exit int `json:"exit"`
+	K    int  `json:"k"`
+	Exit int  `json:"exit"`
+	Sub  bool `json:"sub,omitempty"` // the first parameter is a sub-shell that leaves a marker p<K> on stderr when it is evaluated
 }
 
 type chUnit struct {
@@ -59,7 +60,7 @@ func genChain(r *Rand, tier string, try bool) Case {
 			if r.Intn(3) == 0 {
 				ex = 1 + r.Intn(4)
 			}
-			u.Stages = append(u.Stages, chStage{K: k, Exit: ex})
+			u.Stages = append(u.Stages, chStage{K: k, Exit: ex, Sub: r.Intn(4) == 0})
 			k++
 		}
 		u.Arrow = r.Bool()
@@ -97,7 +98,12 @@ func (w *chainW) source() string {
 					chain.WriteString(" | ")
 				}
 			}
-			fmt.Fprintf(&chain, "mk %d %d", s.K, s.Exit)
+			if s.Sub {
+				// a command that does not run does not evaluate its parameters either
+				fmt.Fprintf(&chain, "mk ${ out <err> p%d; out %d } %d", s.K, s.K, s.Exit)
+			} else {
+				fmt.Fprintf(&chain, "mk %d %d", s.K, s.Exit)
+			}
 		}
 	}
 	switch w.Mode {
@@ -128,6 +134,9 @@ func (w *chainW) model() chainExpect {
 		ex := 0
 		for i, s := range u.Stages {
 			x.errs = append(x.errs, fmt.Sprintf("e%d", s.K))
+			if s.Sub {
+				x.errs = append(x.errs, fmt.Sprintf("p%d", s.K))
+			}
 			ex = s.Exit
 			last := i == len(u.Stages)-1
 			if pipeSeq && s.Exit != 0 && !last {
@@ -204,7 +213,7 @@ func (w *chainW) model() chainExpect {
 	return x
 }
 
-var reMarkE = regexp.MustCompile(`(?m)^e\d+$`)
+var reMarkE = regexp.MustCompile(`(?m)^[ep]\d+$`)
 
 func runChain(c *Case, e *Env) Outcome {
 	var w chainW
@@ -278,6 +287,11 @@ func shrinkChain(c *Case) []Case {
 			if len(w.Units[i].Stages) > 1 {
 				v := cp()
 				v.Units[i].Stages = append(v.Units[i].Stages[:s:s], v.Units[i].Stages[s+1:]...)
+				emit(v)
+			}
+			if w.Units[i].Stages[s].Sub {
+				v := cp()
+				v.Units[i].Stages[s].Sub = false
 				emit(v)
 			}
 			if w.Units[i].Stages[s].Exit > 1 {
